@@ -26,6 +26,83 @@ DECORATION_ONLY = {"deref", "from_utf8_lossy", "trim", "trim_end", "trim_start",
                    "next", "into_iter", "map_while", "split", "lines", "from_utf8", "unwrap_or_default", "to_string", "into_owned", "clone"}
 
 
+def _char_loops(facts, rep):
+    from ..cfg import CFG, call_graph, reachable_bodies
+    from ..linebuf import _mut_base
+    from ..mirq import DefUse, operand_place
+    gm = facts.one("get_message")
+    reach = reachable_bodies(facts, [gm.name], call_graph(facts))
+    n = 0
+    for name in sorted(reach):
+        b = facts.bodies[name]
+        cfg = CFG(b)
+        loops = cfg.loops()
+        if not loops:
+            continue
+        du = DefUse(b)
+        for h, blks in loops.items():
+            blks = set(blks)
+            nexts = []
+            for bi in blks:
+                t = b.blocks[bi]["term"]
+                if t["k"] == "call" and t["callee"].get("name") == "next" and t["args"]:
+                    e = expr(du, t["args"][0])
+                    if any(x[0] == "call" and x[1].split("::")[-1] in ("chars", "bytes", "char_indices") for x in walk(e)):
+                        nexts.append(bi)
+            if not nexts:
+                continue
+            n += 1
+            # blocks that run only for a character that passed the hex-digit test
+            digit_only = set()
+            for bi in blks:
+                t = b.blocks[bi]["term"]
+                if t["k"] != "switch":
+                    continue
+                de = expr(du, t["discr"])
+                tgt = None
+                inner = de[1] if de[0] == "discr" else de
+                while inner[0] == "path":
+                    inner = inner[1]
+                if inner[0] == "call" and inner[1].split("::")[-1] in ("to_digit", "is_ascii_hexdigit", "is_digit"):
+                    if inner[1].split("::")[-1] in ("to_digit", "is_digit") and not (len(inner[2]) == 2 and inner[2][1] == ("const", 16)):
+                        continue
+                    good = 1
+                    for v, bb2 in t["targets"]:
+                        if int(v) == good:
+                            tgt = bb2
+                    if tgt is None and [int(v) for v, _ in t["targets"]] == [0]:
+                        tgt = t["otherwise"]
+                if tgt is not None:
+                    digit_only |= {x for x in blks if cfg.dominates(tgt, x)}
+            bad = []
+            for bi in sorted(blks - digit_only):
+                blk = b.blocks[bi]
+                for s_ in blk["stmts"]:
+                    if s_["k"] == "assign":
+                        l = s_["place"]["local"]
+                        ds = du.whole_defs(l)
+                        if l != 0 and ds and any(d[1] not in blks for d in ds) and s_["rv"]["k"] != "ref":
+                            bad.append((bi, "assignment to `%s`" % (b.locals[l].get("name") or "_%d" % l)))
+                t = blk["term"]
+                if t["k"] == "call" and bi not in nexts:
+                    for a in t["args"]:
+                        pl = operand_place(a)
+                        if pl is None:
+                            continue
+                        ds = du.whole_defs(pl["local"])
+                        if len(ds) == 1 and ds[0][0] == "stmt" and ds[0][3]["rv"]["k"] == "ref" and ds[0][3]["rv"].get("mut"):
+                            base = _mut_base(du, a)
+                            bds = du.whole_defs(base) if base is not None else []
+                            if base is not None and bds and all(d[1] not in blks for d in bds) and t["callee"].get("name") != "next":
+                                bad.append((bi, "%s(&mut %s)" % (t["callee"].get("name"), b.locals[base].get("name") or "_%d" % base)))
+            rep.oblige(not bad, ("char-loop", name, h))
+            for bi, what in bad[:2]:
+                rep.add(Finding("R02.1", "%s : %s for characters that are not hex digits" % (name, what),
+                                "a loop over the line's characters performs %s outside the branch taken for hex digits: the result depends on "
+                                "how many other characters the line contains" % what, "%s" % b.loc()))
+    return n
+
+
 def run(facts, rep, tier):
     try:
         return _run(facts, rep, tier)
@@ -203,6 +280,10 @@ def _run(facts, rep, tier):
                                     nm, "" if nm not in ("pop", "truncate") else " without a test that the terminator is there"), reg.loc(bi)))
     except Broken:
         pass
+    # explicit loops over the line's characters (`for c in line.chars() { .. }`): E2 takes the decoration between two digits as
+    # ONE non-hex character; that zero or many of them give the same result holds iff the loop body leaves every loop-carried
+    # variable alone unless the character passed a hex-digit test
+    _char_loops(facts, rep)
     # the gate's own use of the line: chars -> filter_map(to_digit 16) (E2 verified by the exact vector comparison above)
     rep.instances("R02.1", 1 + len(chain), floor=2)
     # ---- R02.4
